@@ -9,7 +9,7 @@ fn ru<C, U: Comp>(s: &[C], cap: usize, rd: fn(&C) -> U) -> Raw {
     Raw { ptr: s.as_ptr() as usize, len: s.len(), cap, mem: s.iter().map(|c| rd(c).bits()).collect() }
 }
 
-fn exercise_uint<C, U>(out: &mut Out, rng: &mut Rng, tier: &str, name: &str, mk: fn(U) -> C, rd: fn(&C) -> U)
+pub fn exercise_uint<C, U>(out: &mut Out, rng: &mut Rng, tier: &str, name: &str, mk: fn(U) -> C, rd: fn(&C) -> U)
 where U: Comp, C: UintCast<Uint = U> + 'static {
     let thorough = tier == "thorough";
     let mut cx = Ctx { out, ty: name.to_string(), comp: U::TAG, n: 1, hexw: U::HEXW };
